@@ -406,7 +406,7 @@ class CPreProcessor:
             expansion = macro.function(macro_token)
         else:  # Normal macro:
             if macro.args is None:  # Macro without arguments
-                expansion = macro.value
+                expansion = self.substitute_arguments(macro, [])
             else:  # This macro requires arguments
                 # Note that the token after the macro name is not expanded:
                 token = self.next_token(expand=False)
@@ -421,8 +421,6 @@ class CPreProcessor:
                     macro.name
                 }
                 expansion = self.substitute_arguments(macro, args)
-
-            expansion = self.concatenate(expansion)
         return expansion, hideset
 
     def copy_leading_space(self, macro_token, expansion):
@@ -540,53 +538,95 @@ class CPreProcessor:
     def substitute_arguments(self, macro, args):
         """Return macro contents with substituted arguments.
 
-        Pay special care to # and ## operators, When an argument is used
-        in # or ##, it is not macro expanded.
+        Pay special care to # and ## operators:
+
+        - When an argument is used in # or ##, it is not macro expanded.
+        - An empty argument next to ## acts as a placemarker: the result
+          of the concatenation is the other operand.
+        - Only the ## tokens of the replacement list itself are operators,
+          and # is an operator only in function like macros.
         """
-        new_line = []
-        # print(args)
-        # expanded_args = [self.expand_token_sequence(a) for a in args]
-        # Create two variants: expanded and not expanded:
-        repl_map = dict(zip(macro.args, args))
+        function_like = macro.args is not None
+        if function_like:
+            repl_map = dict(zip(macro.args, args))
+        else:
+            repl_map = {}
 
         # Spiffy variadic macro!
         if macro.variadic:
             repl_map[macro.variadic] = args[-1]
 
-        # print(repl_map)
         if self.verbose:
             self.logger.debug("replacement map: %s", repl_map)
+
+        new_line = []
         sle = LineParser(macro.value)
         while not sle.at_end:
             token = sle.consume()
-            if token.typ == "#":
-                # Stringify operator '#'!
-                # Use the unexpanded version for this one
-                arg_name = sle.consume("ID")
-                if arg_name.val in repl_map:
-                    new_line.append(
-                        self.stringify(
-                            token, repl_map[arg_name.val], arg_name.loc
-                        )
-                    )
-                else:
+            if token.typ == "##":
+                # Concatenate operator '##'!
+                if not new_line or sle.at_end:
                     self.error(
-                        f"{arg_name.val} does not refer a macro argument"
+                        "'##' cannot appear at either end of a macro expansion",
+                        loc=token.loc,
                     )
+                rhs = self.concat_operand(sle, repl_map, function_like)
+                lhs = new_line.pop()
+                new_line.append(self.concat(lhs, rhs[0]))
+                new_line.extend(rhs[1:])
+            elif token.typ == "#" and function_like:
+                # Stringify operator '#'!
+                new_line.append(self.stringify_operator(token, sle, repl_map))
             elif token.typ == "ID" and token.val in repl_map:
-                # TODO: maybe figure out a better way for this peaking at '##'
-                replacement = repl_map[token.val]
-                # Test use in '##' construction:
-                used_in_concat = sle.previous == "##" or sle.peak == "##"
-                if not used_in_concat:
+                if sle.peak == "##":
+                    # Use the unexpanded version for this one
+                    new_line.extend(self.unexpanded_argument(token, repl_map))
+                else:
                     # Do macro expansion on the argument:
-                    replacement = self.expand_token_sequence(replacement)
-                replacement = self.copy_tokens(replacement, token.space)
-                new_line.extend(replacement)
+                    replacement = self.expand_token_sequence(
+                        repl_map[token.val]
+                    )
+                    replacement = self.copy_tokens(replacement, token.space)
+                    new_line.extend(replacement)
             else:
                 new_line.append(token)
 
-        return new_line
+        return [token for token in new_line if token.typ != "PLACEMARKER"]
+
+    def concat_operand(self, sle, repl_map, function_like):
+        """Take the right hand side operand of '##' as a list of tokens."""
+        token = sle.consume()
+        if token.typ == "#" and function_like:
+            return [self.stringify_operator(token, sle, repl_map)]
+        elif token.typ == "ID" and token.val in repl_map:
+            return self.unexpanded_argument(token, repl_map)
+        else:
+            return [token]
+
+    def unexpanded_argument(self, token, repl_map):
+        """Tokens of an argument which is an operand of the '##' operator."""
+        replacement = self.copy_tokens(repl_map[token.val], token.space)
+        if not replacement:
+            # Empty argument, this is a placemarker:
+            replacement = [
+                CToken("PLACEMARKER", "", token.space, False, token.loc)
+            ]
+        return replacement
+
+    def stringify_operator(self, hash_token, sle, repl_map):
+        """Handle the stringify operator '#' followed by a parameter."""
+        if sle.peak != "ID":
+            self.error(
+                "'#' is not followed by a macro parameter", loc=hash_token.loc
+            )
+        arg_name = sle.consume("ID")
+        if arg_name.val not in repl_map:
+            self.error(
+                f"{arg_name.val} does not refer a macro argument",
+                loc=arg_name.loc,
+            )
+        # Use the unexpanded version for this one
+        return self.stringify(hash_token, repl_map[arg_name.val], arg_name.loc)
 
     def copy_tokens(self, tokens, first_space):
         """Copy a series of tokens."""
@@ -621,6 +661,12 @@ class CPreProcessor:
 
     def concat(self, lhs, rhs):
         """Concatenate two tokens"""
+        # An empty argument yields the other operand:
+        if lhs.typ == "PLACEMARKER":
+            return rhs.copy(space=lhs.space, first=lhs.first)
+        if rhs.typ == "PLACEMARKER":
+            return lhs
+
         total_text = lhs.val + rhs.val
 
         # Invoke the lexer again on glued text to produce tokens:
@@ -633,18 +679,6 @@ class CPreProcessor:
             )
         else:
             self.error(f'Invalidly glued "{total_text}"', loc=lhs.loc)
-
-    def concatenate(self, tokens):
-        """Handle the '##' token concatenation operator"""
-        le = LineParser(tokens)
-        glue_line = []
-        while not le.at_end:
-            lhs = le.consume()
-            while le.has_consumed("##"):
-                rhs = le.consume()
-                lhs = self.concat(lhs, rhs)
-            glue_line.append(lhs)
-        return glue_line
 
     def make_newline_token(self, line):
         raise NotImplementedError()
@@ -1276,6 +1310,11 @@ class LineEater:
 
     def __str__(self):
         return "Ctx({})".format("".join(map(str, self.line)))
+
+    def error(self, msg):
+        """We hit an error condition in the token sequence."""
+        loc = self.token.loc if self.token else None
+        raise CompilerError(msg, loc=loc)
 
     @property
     def peak(self):
